@@ -259,6 +259,9 @@ Proof.
            ++ destruct (HN n' Hn') as (ty & id' & E'). exists ty, id'.
               rewrite slot_set_nvb, FB; [|unfold mslot; lia].
               unfold s3. rewrite slot_set_cl, LB; auto.
+  - (* OAdoptNull: the holder is cleared (assimilate), nothing is adopted, the way out leaves it empty *)
+    destruct (okh H i && okty ty)%bool eqn:E; [|exact HG]. apply andb_true_iff in E. destruct E as [E _]. apply okh_range in E.
+    cbn [snd]. eapply (Good_frame [hslot i]); eauto; [inv_chain | fr | simpl; intros k [<-|[]]; lia].
 Qed.
 
 Lemma Good_init : Good (init H M).
